@@ -447,6 +447,7 @@ func TestVerifInformer(t *testing.T) {
 		}
 		out.Line(vs.M{"kind": "informer", "case": i, "seed": seed, "initial": initial, "ops": ops,
 			"keys": []string{"widgets.example.com/v1", "configmaps.v1"}})
+		sim.Server.CloseClientConnections() // a leaked informer's watch must not keep Close() waiting
 		sim.Close()
 	}
 }
